@@ -94,3 +94,104 @@ def W.Compat : W V → Prop
   | .tern k a _ b _ c => a.le k ∧ b.lt k ∧ c.lt k ∧ a.Compat ∧ b.Compat ∧ c.Compat
 
 end MoSql.Infix
+
+/-! ### decidable versions (used by the driver and by `decide`) -/
+namespace MoSql.Infix
+variable {V : Type}
+
+def W.leB (w : W V) (k : Nat) : Bool :=
+  match w.top with
+  | none => true
+  | some j => decide (j ≤ k)
+
+def W.ltB (w : W V) (k : Nat) : Bool :=
+  match w.top with
+  | none => true
+  | some j => decide (j < k)
+
+def W.compatB : W V → Bool
+  | .leaf _ => true
+  | .pre k _ x => x.leB k && x.compatB
+  | .suf k x _ => x.leB k && x.compatB
+  | .bin k l _ r => l.leB k && r.ltB k && l.compatB && r.compatB
+  | .tern k a _ b _ c => a.leB k && b.ltB k && c.ltB k && a.compatB && b.compatB && c.compatB
+
+def nodeOkB (lv : List Level) (k : Nat) (kd : Kind) (id0 : Nat) : Bool :=
+  match lv[k]? with
+  | some L => L.kind == kd && L.id0 == id0
+  | none => false
+
+def W.wfB (lv : List Level) : W V → Bool
+  | .leaf _ => true
+  | .pre k t x => nodeOkB lv k .pre t.id && x.wfB lv
+  | .suf k x t => nodeOkB lv k .suf t.id && x.wfB lv
+  | .bin k l t r => nodeOkB lv k .bin t.id && l.wfB lv && r.wfB lv
+  | .tern k a t0 b t1 c =>
+    (match lv[k]? with
+     | some L => L.kind == Kind.tern && L.id0 == t0.id && L.id1 == t1.id
+     | none => false) && a.wfB lv && b.wfB lv && c.wfB lv
+
+theorem W.le_of_leB {w : W V} {k : Nat} (h : w.leB k = true) : w.le k := by
+  intro j hj; simp [W.leB, hj] at h; exact h
+
+theorem W.lt_of_ltB {w : W V} {k : Nat} (h : w.ltB k = true) : w.lt k := by
+  intro j hj; simp [W.ltB, hj] at h; exact h
+
+theorem W.compat_of_compatB : ∀ {w : W V}, w.compatB = true → w.Compat
+  | .leaf _, _ => trivial
+  | .pre _ _ x, h => by
+    simp only [W.compatB, Bool.and_eq_true] at h
+    exact ⟨W.le_of_leB h.1, W.compat_of_compatB h.2⟩
+  | .suf _ x _, h => by
+    simp only [W.compatB, Bool.and_eq_true] at h
+    exact ⟨W.le_of_leB h.1, W.compat_of_compatB h.2⟩
+  | .bin _ l _ r, h => by
+    simp only [W.compatB, Bool.and_eq_true] at h
+    exact ⟨W.le_of_leB h.1.1.1, W.lt_of_ltB h.1.1.2, W.compat_of_compatB h.1.2,
+      W.compat_of_compatB h.2⟩
+  | .tern _ a _ b _ c, h => by
+    simp only [W.compatB, Bool.and_eq_true] at h
+    exact ⟨W.le_of_leB h.1.1.1.1.1, W.lt_of_ltB h.1.1.1.1.2, W.lt_of_ltB h.1.1.1.2,
+      W.compat_of_compatB h.1.1.2, W.compat_of_compatB h.1.2, W.compat_of_compatB h.2⟩
+
+theorem nodeOk_of_nodeOkB {lv : List Level} {k : Nat} {kd : Kind} {id0 : Nat}
+    (h : nodeOkB lv k kd id0 = true) : NodeOk lv k kd id0 := by
+  unfold nodeOkB at h
+  cases hL : lv[k]? with
+  | none => simp [hL] at h
+  | some L =>
+    simp only [hL, Bool.and_eq_true, beq_iff_eq] at h
+    exact ⟨L, hL, h.1, h.2⟩
+
+theorem W.wf_of_wfB {lv : List Level} : ∀ {w : W V}, w.wfB lv = true → w.WF lv
+  | .leaf _, _ => trivial
+  | .pre _ _ x, h => by
+    simp only [W.wfB, Bool.and_eq_true] at h
+    exact ⟨nodeOk_of_nodeOkB h.1, W.wf_of_wfB h.2⟩
+  | .suf _ x _, h => by
+    simp only [W.wfB, Bool.and_eq_true] at h
+    exact ⟨nodeOk_of_nodeOkB h.1, W.wf_of_wfB h.2⟩
+  | .bin _ l _ r, h => by
+    simp only [W.wfB, Bool.and_eq_true] at h
+    exact ⟨nodeOk_of_nodeOkB h.1.1, W.wf_of_wfB h.1.2, W.wf_of_wfB h.2⟩
+  | .tern k a t0 b t1 c, h => by
+    simp only [W.wfB, Bool.and_eq_true] at h
+    obtain ⟨⟨⟨h0, ha⟩, hb⟩, hc⟩ := h
+    refine ⟨?_, W.wf_of_wfB ha, W.wf_of_wfB hb, W.wf_of_wfB hc⟩
+    cases hL : lv[k]? with
+    | none => simp [hL] at h0
+    | some L =>
+      simp only [hL, Bool.and_eq_true, beq_iff_eq] at h0
+      exact ⟨L, rfl, h0.1.1, h0.1.2, h0.2⟩
+
+/-- Boolean form of `LevelsOK`, decidable on the generated table -/
+def levelsOKB (lv : List Level) : Bool :=
+  let idx := List.range lv.length
+  idx.all (fun i => idx.all (fun j =>
+    match lv[i]?, lv[j]? with
+    | some Li, some Lj =>
+      (Li.id0 != Lj.id0 || i == j) &&
+      (!(Li.kind == Kind.tern && j ≤ i) || Lj.id0 != Li.id1)
+    | _, _ => true))
+
+end MoSql.Infix
